@@ -123,21 +123,22 @@ type frame struct {
 }
 
 type Exec struct {
-	Prog       *ssa.Program
-	ModulePath string
-	Globals    map[*ssa.Global]int
-	ExtGlobals map[string]int
-	VCs        []*VC
-	Known      map[string]*term.Term
-	KnownOrder []string
-	Inputs     []*term.Term
-	InputKinds map[string]string
-	Concrete   term.Model // non-nil: v* primitives return these constants
-	Inc        *solver.Proc
-	UseSolver  bool
-	PruneCalls bool // solver-check every outcome returned to the harness function
-	MaxUnroll  int
-	MaxStates  int
+	Prog                *ssa.Program
+	ModulePath          string
+	Globals             map[*ssa.Global]int
+	ExtGlobals          map[string]int
+	VCs                 []*VC
+	Known               map[string]*term.Term
+	KnownOrder          []string
+	Inputs              []*term.Term
+	InputKinds          map[string]string
+	Concrete            term.Model // non-nil: v* primitives return these constants
+	Inc                 *solver.Proc
+	UseSolver           bool
+	PruneCalls          bool // solver-check every outcome returned to the harness function
+	KeepHarnessOutcomes bool
+	MaxUnroll           int
+	MaxStates           int
 
 	liveCache   map[*ssa.Function]map[*ssa.BasicBlock]map[ssa.Value]bool
 	ipdCache    map[*ssa.Function]map[*ssa.BasicBlock]*ssa.BasicBlock
@@ -170,7 +171,7 @@ func NewExec(prog *ssa.Program, module string) *Exec {
 		Prog: prog, ModulePath: module,
 		Globals: map[*ssa.Global]int{}, ExtGlobals: map[string]int{},
 		Known: map[string]*term.Term{}, InputKinds: map[string]string{},
-		MaxUnroll: 64, MaxStates: 4000, MaxSteps: 50_000_000,
+		MaxUnroll: 64, MaxStates: 4000, KeepHarnessOutcomes: true, MaxSteps: 50_000_000,
 		ipdCache:  map[*ssa.Function]map[*ssa.BasicBlock]*ssa.BasicBlock{},
 		loopCache: map[*ssa.Function]map[*ssa.BasicBlock]bool{},
 		FnInstrs:  map[string]int{}, StubsUsed: map[string]int{}, StubsTotal: map[string]int{},
@@ -672,7 +673,12 @@ func (ex *Exec) CallFunction(fn *ssa.Function, bind []Value, args []Value, g *te
 	if depth == 0 {
 		ex.RawOutcomes += len(fr.outs)
 	}
-	outs := ex.mergeOutcomes(fr, fr.outs)
+	outs := fr.outs
+	if depth != 1 || !ex.KeepHarnessOutcomes {
+		// outcomes returned directly to the harness function stay separate: each keeps its precise path facts
+		// (digit counts, table indices), which the harness oracles need; deeper frames merge by shape
+		outs = ex.mergeOutcomes(fr, fr.outs)
+	}
 	res := make([]*callResult, len(outs))
 	for i, o := range outs {
 		res[i] = &callResult{G: o.G, H: o.H, Ret: o.Ret, Panic: o.Panic, Panics: o.Panics}
@@ -867,7 +873,7 @@ func (ex *Exec) runAt(fr *frame, st *State, b *ssa.BasicBlock, idx int, stop *ss
 func (ex *Exec) branch(fr *frame, st *State, b *ssa.BasicBlock, c *term.Term, stop *ssa.BasicBlock) []*State {
 	J := fr.ipd[b]
 	visits := st.F.Unroll[b]
-	useSolver := fr.loops[b] || visits > 0
+	useSolver := fr.loops[b] || visits >= 8
 	st.facts()
 	conds := [2]*term.Term{c, term.Not(c)}
 	var feas [2]bool
